@@ -68,7 +68,9 @@ func (g *Gen) binopInt(op token.Token, x, y Term, ii IntInfo, at, bt, rt types.T
 		if !ii.Signed {
 			return Val{T: rt, C: []Term{wrapInt(t, ii)}}
 		}
-		if checked {
+		if checked && g.con != nil && g.con.Opts["math_int"] != "" {
+			g.noteAssumption("machine arithmetic treated as mathematical (no overflow obligations) in " + g.fnName())
+		} else if checked {
 			t = g.define("ar", t)
 			g.oblige("overflow", rangeFact(t, ii), "signed arithmetic does not overflow: "+s)
 		}
@@ -113,17 +115,59 @@ func (g *Gen) binopInt(op token.Token, x, y Term, ii IntInfo, at, bt, rt types.T
 		if cv, ok := parseIntLit(y.S); ok && cv.IsInt64() && cv.Int64() < 63 {
 			return mk(app("div", x.S, pow2(int(cv.Int64())).String()))
 		}
-	case token.AND:
-		// x & (2^k - 1)
-		if cv, ok := parseIntLit(y.S); ok && isMask(cv) && !ii.Signed {
-			return mk(app("mod", x.S, new(big.Int).Add(cv, big.NewInt(1)).String()))
-		}
-		if cv, ok := parseIntLit(x.S); ok && isMask(cv) && !ii.Signed {
-			return mk(app("mod", y.S, new(big.Int).Add(cv, big.NewInt(1)).String()))
+	case token.AND, token.OR, token.AND_NOT:
+		if !ii.Signed {
+			if cv, ok := parseIntLit(y.S); ok {
+				if r, ok := intBitop(op.String(), x.S, cv); ok {
+					return mk(r)
+				}
+			}
+			if cv, ok := parseIntLit(x.S); ok && op != token.AND_NOT {
+				if r, ok := intBitop(op.String(), y.S, cv); ok {
+					return mk(r)
+				}
+			}
 		}
 	}
 	oos("operator %s on mathematical integers needs `arith mixed` or `arith bv`", op)
 	return Val{}
+}
+
+// intBitop encodes x OP c for a non-negative Int-sorted x and a constant c with simple shape
+// (low mask 2^k-1 or single bit 2^k) in linear integer arithmetic.
+func intBitop(op string, x string, c *big.Int) (string, bool) {
+	if c.Sign() == 0 {
+		switch op {
+		case "&":
+			return "0", true
+		case "|", "^":
+			return x, true
+		}
+	}
+	singleBit := c.Sign() > 0 && new(big.Int).And(c, new(big.Int).Sub(c, big.NewInt(1))).Sign() == 0
+	bitval := func() string { return app("*", c.String(), app("mod", app("div", x, c.String()), "2")) }
+	switch op {
+	case "&":
+		if isMask(c) {
+			return app("mod", x, new(big.Int).Add(c, big.NewInt(1)).String()), true
+		}
+		if singleBit {
+			return bitval(), true
+		}
+	case "|":
+		if singleBit {
+			return app("-", app("+", x, c.String()), bitval()), true
+		}
+	case "&^":
+		if singleBit {
+			return app("-", x, bitval()), true
+		}
+		if isMask(c) {
+			m := new(big.Int).Add(c, big.NewInt(1)).String()
+			return app("-", x, app("mod", x, m)), true
+		}
+	}
+	return "", false
 }
 
 func isMask(v *big.Int) bool {
